@@ -18,7 +18,7 @@ import Ark.Model.Proto
        `xsfromy <cid> <y>`, `ptfromy <cid> <greatest> <y>`.
 
   Verdicts (independent of the algorithms): schoolbook arithmetic in `F_p[X]/(X^k - β)` layer by layer;
-  "is a square" is decided by brute force (table of all squares) when the field has ≤ 2·10^5 elements and
+  "is a square" is decided by brute force (table of all squares) when the field has ≤ 7·10^4 elements and
   by Euler's criterion `x^((q-1)/2)` (plain square-and-multiply) otherwise; on the small fields the two are
   cross-checked.  A reported root is accepted iff it squares to the input (either root is fine).
 -/
@@ -413,7 +413,7 @@ def dbg : Bool := false
 
 def mkInst (p : Nat) (sh : Shape) (m : String → List String → Option String) : Inst :=
   let q := p ^ sh.deg
-  { p := p, shape := sh, q := q, small := q ≤ 200000,
+  { p := p, shape := sh, q := q, small := q ≤ 70000,
     squares := Thunk.mk (fun _ => squaresTable p sh q), model := m }
 
 /-- a configured field: the instance, the model's string for its `SQRT_PRECOMP`, and the verdict on
